@@ -3,6 +3,7 @@ mod util;
 mod c02;
 mod c04;
 mod c09;
+mod rsp;
 mod sparql;
 
 fn main() {
@@ -17,6 +18,7 @@ fn main() {
         "c02" => c02::main(&a),
         "c04" => c04::main(&a),
         "c09" => c09::main(&a),
+        "rsp" => rsp::main(&a),
         "sparql" => sparql::main(&a),
         other => {
             eprintln!("unknown driver {other}");
